@@ -33,14 +33,36 @@ func decInt(s string) *big.Int {
 
 func modP(x, p *big.Int) *big.Int { return new(big.Int).Mod(x, p) }
 
-func addP(a, b, p *big.Int) *big.Int { r := new(big.Int).Add(a, b); return r.Mod(r, p) }
-func subP(a, b, p *big.Int) *big.Int { r := new(big.Int).Sub(a, b); return r.Mod(r, p) }
+// redP returns x mod p, sharing x when it is already reduced (values are never mutated).
+func redP(x, p *big.Int) *big.Int {
+	if x.Sign() >= 0 && x.Cmp(p) < 0 {
+		return x
+	}
+	return new(big.Int).Mod(x, p)
+}
+
+// fix brings r = a ± b (a, b usually reduced) into [0, p) with one conditional add/subtract,
+// falling back to a division only for unreduced operands.
+func fix(r, p *big.Int) *big.Int {
+	if r.Sign() < 0 {
+		r.Add(r, p)
+	} else if r.Cmp(p) >= 0 {
+		r.Sub(r, p)
+	}
+	if r.Sign() < 0 || r.Cmp(p) >= 0 {
+		r.Mod(r, p)
+	}
+	return r
+}
+
+func addP(a, b, p *big.Int) *big.Int { return fix(new(big.Int).Add(a, b), p) }
+func subP(a, b, p *big.Int) *big.Int { return fix(new(big.Int).Sub(a, b), p) }
 func mulP(a, b, p *big.Int) *big.Int { r := new(big.Int).Mul(a, b); return r.Mod(r, p) }
-func negP(a, p *big.Int) *big.Int    { r := new(big.Int).Neg(a); return r.Mod(r, p) }
+func negP(a, p *big.Int) *big.Int    { return fix(new(big.Int).Neg(a), p) }
 
 // invP returns a^-1 mod p; it panics on a ≡ 0 (callers exclude that case by case analysis).
 func invP(a, p *big.Int) *big.Int {
-	r := new(big.Int).ModInverse(modP(a, p), p)
+	r := new(big.Int).ModInverse(redP(a, p), p)
 	if r == nil {
 		panic("refcurve: inverse of zero")
 	}
@@ -148,12 +170,12 @@ func (f field) fromInt(v int64) fe {
 }
 
 func (f field) reduce(a fe) fe {
-	r := fe{A: modP(a.A, f.p)}
+	r := fe{A: redP(a.A, f.p)}
 	if f.ext {
 		if a.B == nil {
-			r.B = new(big.Int)
+			r.B = bigZero
 		} else {
-			r.B = modP(a.B, f.p)
+			r.B = redP(a.B, f.p)
 		}
 	}
 	return r
@@ -199,11 +221,14 @@ func (f field) mul(a, b fe) fe {
 
 func (f field) sqr(a fe) fe { return f.mul(a, a) }
 
+// mulInt multiplies by a small positive integer by repeated addition.
 func (f field) mulInt(a fe, k int64) fe {
-	kk := big.NewInt(k)
-	r := fe{A: mulP(a.A, kk, f.p)}
-	if f.ext {
-		r.B = mulP(a.B, kk, f.p)
+	if k < 1 {
+		panic("refcurve: mulInt")
+	}
+	r := a
+	for i := int64(1); i < k; i++ {
+		r = f.add(r, a)
 	}
 	return r
 }
